@@ -39,6 +39,7 @@ type WorkPlan struct {
 // WMod is a module of a WorkPlan.
 type WMod struct {
 	Deps      []int  `json:"deps,omitempty"`
+	PrepDur   int    `json:"prep_dur,omitempty"` // durLadder index (0-2): the prep routine takes a moment
 	StartDur  int    `json:"start_dur,omitempty"`
 	StopDur   int    `json:"stop_dur,omitempty"`
 	LifePanic [3]int `json:"life_panic,omitempty"` // C06: panic kind in prep/start/stop (0 none)
@@ -135,6 +136,9 @@ func genWork(rng *rand.Rand, tier, prop string) *WorkPlan {
 		}
 		if rng.IntN(3) == 0 {
 			m.StartDur = rng.IntN(4)
+		}
+		if rng.IntN(3) == 0 {
+			m.PrepDur = rng.IntN(3)
 		}
 		if rng.IntN(2) == 0 {
 			m.StopDur = rng.IntN(len(durLadder))
@@ -295,6 +299,10 @@ func (s *workState) lifecycle(i, ph int) func() error {
 		s.evs = append(s.evs, ev{Seq: simrt.Seq(), T: simrt.Now(), Mod: i, Phase: phaseNames[ph], Kind: "begin", Inv: inv})
 		m := s.p.Mods[i]
 		switch ph {
+		case 0:
+			if d := durLadder[m.PrepDur%3]; d > 0 {
+				time.Sleep(d)
+			}
 		case 1:
 			for k, it := range s.p.Items {
 				if it.Mod == i && it.AtStart && inv == 0 {
